@@ -5,11 +5,20 @@ NOTE = ("echs_instant_rescale, echs_scale_ndim, echs_scale_wday with g2mjd/mjd2g
 ASSUMPTIONS = ["Gregorian source date valid and inside 1901..2099", "ORC-cal (oracle/cal.h) is the calendar"]
 NAMES = {1: 'IA', 2: 'IC', 3: 'IIA', 4: 'IIC', 5: 'IIIA', 6: 'IIIC', 7: 'IVA', 8: 'IVC', 9: 'UMMULQURA', 10: 'DIYANET'}
 OBLIGATIONS = []
-for s in range(1, 11):
-    OBLIGATIONS.append(dict(
-        name='scale_%s' % NAMES[s], src='h_scale.c', defs=['SCALE=%d' % s, 'ORC_FAST'], units=[], incl=['src/scale.c'], replay_units='all',
+def ob(s, name, ylo=None, yhi=None, **kw):
+    defs = ['SCALE=%d' % s, 'ORC_FAST'] + (['YLO=%d' % ylo, 'YHI=%d' % yhi] if ylo else [])
+    o = dict(
+        name=name, src='h_scale.c', defs=defs, units=[], incl=['src/scale.c'], replay_units='all',
         unwind=3, unwindset={'mjd2ht.*': 1760}, solver='kissat', slice_formula=True, timeout=800, mem_gb=4,
         checks=['--bounds-check', '--div-by-zero-check'],
         enc=['echs_instant_rescale', 'g2mjd', 'mjd2g', 'hij2mjd', 'mjd2hij', 'ht2mjd', 'mjd2ht', 'echs_scale_ndim', 'echs_scale_wday', '__hij_inty_p'],
-        sym='the Gregorian date (year, month, day)', bounds='every day of 1901..2099',
-        outside='dates outside 1901..2099'))
+        sym='the Gregorian date (year, month, day)', bounds='every day of %d..%d' % (ylo or 1901, yhi or 2099),
+        outside='dates outside 1901..2099')
+    o.update(kw)
+    return o
+for s in range(1, 9):
+    OBLIGATIONS.append(ob(s, 'scale_%s' % NAMES[s]))
+# the two table-based variants scan 1741 month starts per conversion: one query per half century
+for s in (9, 10):
+    for ylo, yhi in ((1901, 1950), (1951, 2000), (2001, 2050), (2051, 2099)):
+        OBLIGATIONS.append(ob(s, 'scale_%s_%d_%d' % (NAMES[s], ylo, yhi), ylo, yhi))
